@@ -1359,7 +1359,48 @@ def oracle_C13(case, obs):
     return bad[:6]
 
 
-ORACLES = {"C01": oracle_C01, "C02": oracle_C02, "C03": oracle_C03, "C04": oracle_C04, "C05": oracle_C05,
+def oracle_C08(case, obs):
+    """addressing part of C01: every A/D record names the rack and the device-specific number of the well the call named"""
+    if case["dev"] == "base":
+        return []
+    bad = []
+    L = case["labware"]
+    for i, (op, st) in enumerate(zip(case["ops"], obs["steps"])):
+        k = op["op"]
+        if k in ("aspirate", "dispense") and lw_args_ok(case, op):
+            ws = flatF(op["wells"])
+            vs = [num(v) for v in bcast(flatF(op["vols"]), len(ws))]
+            if len(vs) != len(ws):
+                continue
+            want = [(L[op["lw"]]["name"], dev_pos(case["dev"], L[op["lw"]], w)) for w, v in zip(ws, vs) if v is not None and v > 0]
+            got = [(r.split(";")[1], int(r.split(";")[4])) for r in st["recs"] if r[:2] in ("A;", "D;")]
+            if got != want[: len(got)] or (st["exc"] is None and got != want):
+                bad.append(f"position: call {i} ({k}) emitted records for {got}, the call named {want}")
+        if k == "transfer" and st["exc"] is None and lw_args_ok(case, op):
+            tr = triples_of(op) or []
+            want = {(dev_pos(case["dev"], L[op["src"]], s), dev_pos(case["dev"], L[op["dst"]], d)) for s, d, v in tr if v > 0}
+            recs = st["recs"]
+            got = set()
+            for a, d in zip(recs, recs[1:]):
+                if a.startswith("A;") and d.startswith("D;"):
+                    fa, fd = a.split(";"), d.split(";")
+                    if fa[1] != L[op["src"]]["name"] or fd[1] != L[op["dst"]]["name"]:
+                        bad.append(f"position: call {i} (transfer) names racks {fa[1]!r} / {fd[1]!r}")
+                    got.add((int(fa[4]), int(fd[4])))
+            if got != want:
+                bad.append(f"position: call {i} (transfer) pipettes between positions {sorted(got)}, the call named {sorted(want)}")
+        if k == "distribute" and st["exc"] is None:
+            for r in st["recs"]:
+                if r.startswith("R;"):
+                    f = r.split(";")
+                    dpos = sorted(dev_pos(case["dev"], L[op["dst"]], w) for w in flatF(op["dwells"]))
+                    rng_ = [p for p in range(int(f[9]), int(f[10]) + 1) if str(p) not in f[16:]]
+                    if len(set(dpos)) == len(dpos) and rng_ != dpos:
+                        bad.append(f"position: call {i} (distribute) addresses destination positions {rng_}, the call named {dpos}")
+    return bad[:5]
+
+
+ORACLES = {"C08": oracle_C08, "C01": oracle_C01, "C02": oracle_C02, "C03": oracle_C03, "C04": oracle_C04, "C05": oracle_C05,
            "C06": oracle_C06, "C07": oracle_C07, "C09": oracle_C09, "C10": oracle_C10, "C11": oracle_C11}
 ORACLES_PARAMS = {"C09": oracle_C09, "C10": oracle_C10}
 ORACLES_EVOCMD = {"C13": oracle_C13, "C10": oracle_C10, "C02": oracle_C02, "C03": oracle_C03}
